@@ -108,6 +108,8 @@ type Driver struct {
 	Cur   map[string]string // key -> current implementation version string (as last reported)
 	Stale map[string]string // key -> some older version string of this key
 	Base  time.Time         // "now" used to compute expiry instants
+	// TwoIterators: every "list" operation opens and drains a second listing while the first iterator is still unread
+	TwoIterators bool
 	// ExpDur maps the expiry code of an Op to a duration after Base (default: none, +1h, +100h)
 	ExpDur []time.Duration
 }
@@ -444,7 +446,8 @@ func (d *Driver) Exec(o Op, w Want) (clause, detail string) {
 		}
 		// a second listing is opened and consumed while the first iterator is still unread: what an iterator delivers
 		// was decided when it was created, whatever the storage is asked later
-		if it2, err2 := d.St.ListKeys(ctx, "*"); err2 == nil && it2 != nil {
+		if !d.TwoIterators {
+		} else if it2, err2 := d.St.ListKeys(ctx, "*"); err2 == nil && it2 != nil {
 			for it2.HasNext() {
 				if _, ok := it2.Next(); !ok {
 					break
